@@ -554,7 +554,7 @@ func checkReactiveRegistration(r *Reporter, p *Prog, pkg, typ string) {
 		r.Fail("reg/hand-off", key, p.posStr(fd.Pos()), "registration must create a callback and push it onto the callback list")
 		return
 	}
-	recvObj := info.Defs[regFd.Recv.List[0].Names[0]]
+	recvObj := info.Defs[recvIdentOf(regFd)]
 	recvPath := fmt.Sprintf("%s@%d", recvObj.Name(), recvObj.Pos())
 	var bad []string
 	nSteps, nSnapshot := 0, 0
@@ -770,7 +770,7 @@ func checkLockExecutionContract(r *Reporter, p *Prog) {
 	// one it has already received (a zero id is never "already received")
 	okCond := true
 	{
-		recvName := fd.Recv.List[0].Names[0].Name
+		recvName := recvIdentOf(fd).Name
 		params := paramObjs(info, fd)
 		idName := "updateID"
 		if len(params) > 0 && params[0] != nil {
